@@ -311,7 +311,7 @@ def h11_isinstance_int(ctx, tk, rule, funcs):
     numbers.Integral / np.integer"""
     for f in funcs:
         fa = ctx.fa(f)
-        for n, c in find_calls(fa, lambda c: c.a[0].k == "global" and c.a[0].a[0] == "isinstance" and len(c.a[1]) == 2 and c.a[1][0].k == "param"):
+        for n, c in find_calls(fa, lambda c: c.a[0].k == "global" and c.a[0].a[0] == "isinstance" and len(c.a[1]) == 2 and any(a.k == "param" for a in alts(c.a[1][0]))):
             cls = c.a[1][1]
             names = {x.a[0] for x in walk(cls) if x.k == "global"} | {(attr_chain(x) or ("",))[-1] for x in walk(cls) if x.k == "attr"}
             if "int" in names and not (names & {"Number", "Integral", "integer", "Real", "generic"}):
